@@ -991,6 +991,33 @@ func (fr *Frame) loopInvariants(ord int) []*Expr {
 		if ct := fr.u.eng.contractFor(fr.fn); ct != nil {
 			return ct.LoopInv[ord]
 		}
+		// a function without a contract that is inlined below a function whose contract declares invariants for more
+		// loops than that function has: the loop was moved into this helper (extract-function refactoring) and its
+		// invariant follows it
+		for a := fr.parent; a != nil; a = a.parent {
+			cta := a.contract
+			if a.depth != 0 {
+				cta = fr.u.eng.contractFor(a.fn)
+			}
+			if cta == nil {
+				continue
+			}
+			var orphans []int
+			for o := range cta.LoopInv {
+				if o > len(a.loopOrd) {
+					orphans = append(orphans, o)
+				}
+			}
+			if len(orphans) == 0 {
+				continue
+			}
+			sort.Ints(orphans)
+			if ord <= len(orphans) {
+				fr.u.note(fmt.Sprintf("loop %d of %s has no loop of its own in %s any more; its invariant is applied to loop %d of the inlined helper %s", orphans[ord-1], fnKey(a.fn), fnKey(a.fn), ord, fnKey(fr.fn)))
+				return cta.LoopInv[orphans[ord-1]]
+			}
+			return nil
+		}
 		return nil
 	}
 	if fr.contract == nil {
@@ -1081,6 +1108,16 @@ func (fr *Frame) loopEnv(h *ssa.BasicBlock, pv func(*ssa.Phi) *Val) *Env {
 			}
 		}
 	}
+	// a range loop that has become a counting loop (`for i := 0; i < len(s); i++`): invariants written with the
+	// range index `idx` read it as counter - 1
+	if _, have := env.vars["idx"]; !have {
+		counters := fr.countingPhis(h)
+		if len(counters) == 1 {
+			if v := pv(counters[0]); v != nil && v.K == vTerm {
+				env.vars["idx"] = term(fmt.Sprintf("(- %s 1)", v.T), types.Typ[types.Int])
+			}
+		}
+	}
 	// names recorded for these phis when the claims were written (survives a rename of the loop variable)
 	if base := fr.u.eng.baseLocals[fnKey(fr.fn)]; base != nil {
 		for old := range base {
@@ -1159,3 +1196,31 @@ func (fr *Frame) loopEnv(h *ssa.BasicBlock, pv func(*ssa.Phi) *Val) *Env {
 func sortStrings(xs []string) { sort.Strings(xs) }
 
 var _ = token.NoPos
+
+// countingPhis returns the phis of loop header h that count iterations from 0 in steps of 1.
+func (fr *Frame) countingPhis(h *ssa.BasicBlock) []*ssa.Phi {
+	var counters []*ssa.Phi
+	for _, in := range h.Instrs {
+		p, ok := in.(*ssa.Phi)
+		if !ok || !isInteger(p.Type()) || len(p.Edges) != 2 {
+			continue
+		}
+		isCounter := false
+		for i, e := range p.Edges {
+			if fr.backEdge[[2]int{h.Preds[i].Index, h.Index}] {
+				if bo, ok := e.(*ssa.BinOp); ok && bo.Op == token.ADD && bo.X == ssa.Value(p) {
+					if c, ok := bo.Y.(*ssa.Const); ok && c.Int64() == 1 {
+						isCounter = true
+					}
+				}
+			} else if c, ok := e.(*ssa.Const); !ok || c.Int64() != 0 {
+				isCounter = false
+				break
+			}
+		}
+		if isCounter {
+			counters = append(counters, p)
+		}
+	}
+	return counters
+}
